@@ -788,17 +788,44 @@ theorem coreLog_flatMap_expand (i : Inputs) (l : List Proxy.Io) : coreLog (l.fla
   | nil => rfl
   | cons x r ih => rw [List.flatMap_cons, coreLog_append, coreLog_expand, ih]; rfl
 
+/-- the close of the proxy socket on a failed tunnel (repaired shape): nothing, or one socket-module call -/
+theorem closeItems_cases (i : Inputs) : closeItems i = [] ∨ ∃ k, closeItems i = [.sock (.close k)] := by
+  unfold closeItems
+  split
+  · exact Or.inl rfl
+  · split
+    · exact Or.inr ⟨_, rfl⟩
+    · exact Or.inl rfl
+  · exact Or.inl rfl
+
+theorem closeItems_sock (i : Inputs) : ∃ l : List Connect.Call, closeItems i = l.map .sock := by
+  rcases closeItems_cases i with h | ⟨k, h⟩
+  · exact ⟨[], h⟩
+  · exact ⟨[.close k], h⟩
+
 /-- the connection-phase items project to the Proxy model's log … -/
-theorem ioLog_phaseItems (i : Inputs) : ioLog (phaseItems i) = connectLog i := ioLog_flatMap_expand i _
+theorem ioLog_phaseItems (i : Inputs) : ioLog (phaseItems i) = connectLog i := by
+  obtain ⟨l, hl⟩ := closeItems_sock i
+  unfold phaseItems
+  rw [ioLog_append, ioLog_flatMap_expand, hl, ioLog_sock, List.append_nil]
 
 /-- … and contain no observation of the core model -/
-theorem coreLog_phaseItems (i : Inputs) : coreLog (phaseItems i) = [] := coreLog_flatMap_expand i _
+theorem coreLog_phaseItems (i : Inputs) : coreLog (phaseItems i) = [] := by
+  obtain ⟨l, hl⟩ := closeItems_sock i
+  unfold phaseItems
+  rw [coreLog_append, coreLog_flatMap_expand, hl, coreLog_sock]; rfl
 
 theorem isCoreWrite_phaseItems (i : Inputs) : ∀ x ∈ phaseItems i, x.isCoreWrite = false := by
   intro x hx
-  obtain ⟨y, _, hy⟩ := List.mem_flatMap.mp hx
-  cases y <;> simp [expand] at hy <;> (try (rcases hy with rfl | ⟨c, _, rfl⟩)) <;> (try subst hy) <;>
-    simp [Item.isCoreWrite]
+  unfold phaseItems at hx
+  rcases List.mem_append.mp hx with hx | hx
+  · obtain ⟨y, _, hy⟩ := List.mem_flatMap.mp hx
+    cases y <;> simp [expand] at hy <;> (try (rcases hy with rfl | ⟨c, _, rfl⟩)) <;> (try subst hy) <;>
+      simp [Item.isCoreWrite]
+  · obtain ⟨l, hl⟩ := closeItems_sock i
+    rw [hl] at hx
+    obtain ⟨c, _, rfl⟩ := List.mem_map.mp hx
+    rfl
 
 theorem isCoreWrite_res {l : List Obs} (h : ∀ o ∈ l, isRes o = true) : ∀ x ∈ l.map Item.core, x.isCoreWrite = false := by
   intro x hx
@@ -1003,15 +1030,24 @@ theorem view_res {i : Inputs} {l : List Obs} (h : ∀ o ∈ l, isRes o = true) :
     have := ih (fun o' ho' => h o' (List.mem_cons_of_mem _ ho'))
     cases o <;> first | (cases ho; done) | simpa [view, viewCore] using this
 
-theorem view_phaseItems (i : Inputs) : (phaseItems i).filterMap (view i) = connectLog i := by
-  unfold phaseItems
-  induction connectLog i with
+theorem view_flatMap_expand (i : Inputs) (l : List Proxy.Io) : (l.flatMap (expand i)).filterMap (view i) = l := by
+  induction l with
   | nil => rfl
   | cons x r ih =>
     rw [List.flatMap_cons, List.filterMap_append, ih]
     have : (expand i x).filterMap (view i) = [x] := by
       cases x <;> simp [expand, view, List.filterMap_cons]
     rw [this]; rfl
+
+theorem view_sock (i : Inputs) (l : List Connect.Call) : (l.map Item.sock).filterMap (view i) = [] := by
+  induction l with
+  | nil => rfl
+  | cons x r ih => simpa [view, List.filterMap_cons] using ih
+
+theorem view_phaseItems (i : Inputs) : (phaseItems i).filterMap (view i) = connectLog i := by
+  obtain ⟨l, hl⟩ := closeItems_sock i
+  unfold phaseItems
+  rw [List.filterMap_append, view_flatMap_expand, hl, view_sock, List.append_nil]
 
 open Lomond.Proxy in
 /-- **The Proxy model's log is the beginning of the composed trace, seen through `view`**, for an
@@ -1115,13 +1151,26 @@ theorem sends_core (l : List Obs) : sends (l.map .core) = (l.filter isCoreWrite)
 theorem sends_core_none {l : List Obs} (h : ∀ o ∈ l, isCoreWrite o = false) : sends (l.map .core) = [] := by
   rw [sends_core, List.filter_eq_nil_iff.mpr (fun o ho => by rw [h o ho]; exact Bool.false_ne_true)]; rfl
 
-theorem sends_phaseItems (i : Inputs) : sends (phaseItems i) = (Proxy.writes (connectLog i)).map Item.io := by
-  unfold sends phaseItems Proxy.writes
-  induction connectLog i with
+theorem sends_flatMap_expand (i : Inputs) (l : List Proxy.Io) :
+    sends (l.flatMap (expand i)) = (Proxy.writes l).map Item.io := by
+  unfold sends Proxy.writes
+  induction l with
   | nil => rfl
   | cons y r ih =>
     rw [List.flatMap_cons, List.filter_append, ih]
     cases y <;> simp [expand, List.filter_cons, Item.isWrite, Proxy.Io.isWrite]
+
+theorem sends_sock (l : List Connect.Call) : sends (l.map Item.sock) = [] := by
+  unfold sends
+  rw [List.filter_eq_nil_iff]
+  intro z hz
+  obtain ⟨c, _, rfl⟩ := List.mem_map.mp hz
+  simp [Item.isWrite]
+
+theorem sends_phaseItems (i : Inputs) : sends (phaseItems i) = (Proxy.writes (connectLog i)).map Item.io := by
+  obtain ⟨l, hl⟩ := closeItems_sock i
+  unfold phaseItems
+  rw [sends_append, sends_flatMap_expand, hl, sends_sock, List.append_nil]
 
 /-- the `sendall`s of each shape: those of the connection phase, then those of the core model, whose
     first is the upgrade request -/
@@ -1178,8 +1227,19 @@ theorem connectResult_sock_eq (i : Inputs) (q : Option Str) (h : connectResult i
 theorem phaseItems_direct (i : Inputs) (hc : Proxy.proxyChoice i.ws = none) :
     phaseItems i = .io (.connectTo i.ws.target.host i.ws.target.port i.ws.target.secure) ::
       (Connect.connectSock i.gai).2.map .sock := by
+  have hcl : closeItems i = [] := by
+    unfold closeItems
+    rw [connectResult_direct i hc]
+    cases hs : sockOk i with
+    | true => rfl
+    | false =>
+      have : (Connect.connectSock i.gai).1 = .fail := by
+        cases h : (Connect.connectSock i.gai).1 with
+        | fail => rfl
+        | sock k => exact absurd ((sockOk_iff i).mpr (by rw [h]; intro h'; cases h')) (by rw [hs]; decide)
+      rw [this]; rfl
   unfold phaseItems connectLog
-  rw [hc]
+  rw [hc, hcl]
   simp [expand]
 
 theorem sockLog_phaseItems_direct (i : Inputs) (hc : Proxy.proxyChoice i.ws = none) :
@@ -1187,5 +1247,178 @@ theorem sockLog_phaseItems_direct (i : Inputs) (hc : Proxy.proxyChoice i.ws = no
   rw [phaseItems_direct i hc]
   show sockLog (List.map Item.sock _) = _
   exact sockLog_sock _
+
+/-! ### finding D11: the socket that had connected to the proxy, when the tunnel fails -/
+
+theorem closeItems_connects (i : Inputs) (h : Connects i) : closeItems i = [] := by
+  obtain ⟨q, hq⟩ := h
+  unfold closeItems; rw [hq]
+
+theorem closeItems_fail (i : Inputs) (hn : ¬ Connects i) (k : Nat) (hk : (Connect.connectSock i.gai).1 = .sock k) :
+    closeItems i = if i.pclose && !(connectLog i).isEmpty then [.sock (.close k)] else [] := by
+  unfold closeItems
+  rw [hk]
+  cases h : connectResult i with
+  | sock q => exact absurd ⟨q, h⟩ hn
+  | socketFail => rfl
+  | otherFail => rfl
+
+theorem closeItems_nosock (i : Inputs) (hf : (Connect.connectSock i.gai).1 = .fail) : closeItems i = [] := by
+  unfold closeItems
+  rw [hf]
+  cases connectResult i <;> rfl
+
+/-- a `connect()` made by the address loop either failed — then that socket is closed by the loop — or
+    it is the one the loop returns -/
+theorem attempt_connect (j : Nat) : ∀ (i0 : Nat) (addrs : List Connect.AddrOutcome),
+    Connect.Call.connect j ∈ (Connect.attempt i0 addrs).2 →
+    Connect.Call.close j ∈ (Connect.attempt i0 addrs).2 ∨ (Connect.attempt i0 addrs).1 = some j
+  | _, [], h => by simp [Connect.attempt] at h
+  | i0, .sockCreateFail :: r, h => by
+    simp only [Connect.attempt, List.mem_cons, reduceCtorEq, false_or] at h ⊢
+    exact attempt_connect j (i0 + 1) r h
+  | i0, .connectFail :: r, h => by
+    simp only [Connect.attempt, List.mem_cons, reduceCtorEq, false_or, Connect.Call.connect.injEq,
+      Connect.Call.close.injEq] at h ⊢
+    rcases h with h | h
+    · exact Or.inl (Or.inl h)
+    · rcases attempt_connect j (i0 + 1) r h with h' | h'
+      · exact Or.inl (Or.inr h')
+      · exact Or.inr h'
+  | i0, .ok :: _, h => by
+    simp only [Connect.attempt, List.mem_cons, reduceCtorEq, false_or, Connect.Call.connect.injEq,
+      List.not_mem_nil, or_false] at h ⊢
+    subst h; rfl
+
+theorem connectSock_connect (gai : Option (List Connect.AddrOutcome)) (j : Nat)
+    (h : Connect.Call.connect j ∈ (Connect.connectSock gai).2) :
+    Connect.Call.close j ∈ (Connect.connectSock gai).2 ∨ (Connect.connectSock gai).1 = .sock j := by
+  cases gai with
+  | none => simp [Connect.connectSock] at h
+  | some addrs =>
+    have key := attempt_connect j 0 addrs
+    unfold Connect.connectSock at h ⊢
+    simp only [] at h ⊢
+    cases hat : Connect.attempt 0 addrs with
+    | mk res l =>
+      rw [hat] at key
+      cases res with
+      | none =>
+        simp only [hat] at h key ⊢
+        rcases key h with h' | h'
+        · exact Or.inl h'
+        · cases h'
+      | some k =>
+        simp only [hat] at h key ⊢
+        rcases key h with h' | h'
+        · exact Or.inl h'
+        · cases h'; exact Or.inr rfl
+
+/-- the socket-module calls among the connection-phase items -/
+theorem mem_phaseItems_sock (i : Inputs) (c : Connect.Call) (h : Item.sock c ∈ phaseItems i) :
+    (c ∈ (Connect.connectSock i.gai).2 ∧ (connectLog i).isEmpty = false) ∨ Item.sock c ∈ closeItems i := by
+  unfold phaseItems at h
+  rcases List.mem_append.mp h with h | h
+  · left
+    obtain ⟨y, hy, hm⟩ := List.mem_flatMap.mp h
+    refine ⟨?_, by cases hl : connectLog i with
+      | nil => rw [hl] at hy; cases hy
+      | cons _ _ => rfl⟩
+    cases y <;> simp [expand] at hm
+    exact hm
+  · exact Or.inr h
+
+theorem mem_coreLog {o : Obs} : ∀ {l : List Item}, Item.core o ∈ l → o ∈ coreLog l
+  | [], h => by cases h
+  | y :: t, h => by
+    rcases List.mem_cons.mp h with h | h
+    · subst h; simp [coreLog]
+    · have := mem_coreLog h
+      cases y <;> simp [coreLog, this]
+
+theorem evs_split (pre post : List Item) (e : Event) :
+    evs (pre ++ Item.core (.ev e) :: post) = evs pre ++ e :: evs post := by
+  unfold evs
+  rw [coreLog_append]
+  simp [coreLog, List.filterMap_append, List.filterMap_cons, event?_ev]
+
+/-- "is a `ConnectFail` event of the core model" -/
+def isCF : Item → Bool
+  | .core (.ev (.connectFail _)) => true
+  | _ => false
+
+theorem isCF_res {l : List Obs} (hl : ∀ o ∈ l, isRes o = true) : ∀ z ∈ l.map Item.core, isCF z = false := by
+  intro z hz
+  obtain ⟨o, ho, rfl⟩ := List.mem_map.mp hz
+  have := hl o ho
+  cases o <;> first | (cases this; done) | rfl
+
+theorem isCF_phaseItems (i : Inputs) : ∀ z ∈ phaseItems i, isCF z = false := by
+  intro z hz
+  cases z with
+  | core o =>
+    have := mem_coreLog hz
+    rw [coreLog_phaseItems] at this; cases this
+  | io _ => rfl
+  | sock _ => rfl
+
+theorem isCF_head (i : Inputs) {c0 : List Obs} (n0 : ∀ o ∈ c0, isRes o = true) :
+    ∀ z ∈ (Obs.ev .connecting :: c0).map Item.core ++ phaseItems i, isCF z = false := by
+  intro z hz
+  rcases List.mem_append.mp hz with h | h
+  · rw [List.map_cons] at h
+    rcases List.mem_cons.mp h with rfl | h
+    · rfl
+    · exact isCF_res n0 z h
+  · exact isCF_phaseItems i z h
+
+/-- the first item of a non-empty connection-phase log is the `_connect_sock` call -/
+theorem connectLog_head (i : Inputs) (y : Proxy.Io) (t : List Proxy.Io) (hlog : connectLog i = y :: t) :
+    ∃ h p s, y = Proxy.Io.connectTo h p s := by
+  cases hc : Proxy.proxyChoice i.ws with
+  | none =>
+    have : connectLog i = [.connectTo i.ws.target.host i.ws.target.port i.ws.target.secure] := by
+      unfold connectLog; rw [hc]
+    rw [this] at hlog; cases hlog; exact ⟨_, _, _, rfl⟩
+  | some purl =>
+    have hs := connectProxy_shape i.ws (proxyEnv i) purl
+    rw [connectLog_proxy i purl hc] at hlog
+    generalize Proxy.connectProxy i.ws (proxyEnv i) purl = rr at hs hlog
+    cases hs <;> simp [Proxy.proxyAddr] at hlog
+    all_goals exact ⟨_, _, _, hlog.1.symm⟩
+
+/-- every socket-module call of the address loop is an item of a non-empty connection phase -/
+theorem calls_in_phaseItems (i : Inputs) (c : Connect.Call) (hc : c ∈ (Connect.connectSock i.gai).2)
+    (hne : (connectLog i).isEmpty = false) : Item.sock c ∈ phaseItems i := by
+  unfold phaseItems
+  refine List.mem_append_left _ ?_
+  cases hlog : connectLog i with
+  | nil => rw [hlog] at hne; cases hne
+  | cons y t =>
+    obtain ⟨h0, p0, s0, rfl⟩ := connectLog_head i y t hlog
+    rw [List.flatMap_cons]
+    refine List.mem_append_left _ ?_
+    simp only [expand, List.mem_cons, reduceCtorEq, false_or]
+    exact List.mem_map_of_mem hc
+
+open Lomond.Proxy in
+/-- with a usable proxy URL `_connect_sock` is called: the connection-phase log is not empty -/
+theorem connectLog_nonempty (i : Inputs) (purl : Str) (hc : proxyChoice i.ws = some purl)
+    (hurl : ∃ u p, parseUrl purl = some u ∧ u.port = some p) : (connectLog i).isEmpty = false := by
+  obtain ⟨u0, p0, hu0, hp0⟩ := hurl
+  rw [connectLog_proxy i purl hc]
+  have hs := connectProxy_shape i.ws (proxyEnv i) purl
+  generalize connectProxy i.ws (proxyEnv i) purl = rr at hs
+  cases hs with
+  | badUrl h => rw [h] at hu0; cases hu0
+  | badPort u h1 h2 => rw [h1] at hu0; cases hu0; rw [h2] at hp0; cases hp0
+  | _ => simp
+
+/-- membership in a list of socket-module items -/
+theorem sock_mem_flatMap_expand (i : Inputs) (c : Connect.Call) (l : List Proxy.Io)
+    (h : Item.sock c ∈ l.flatMap (expand i)) : c ∈ (Connect.connectSock i.gai).2 := by
+  obtain ⟨y, _, hm⟩ := List.mem_flatMap.mp h
+  cases y <;> simp [expand] at hm
+  exact hm
 
 end Lomond.ConnectLink
